@@ -171,6 +171,17 @@ Example c14_own_objects_matter :
   own_dq own (dq_objs (collect_all_archs load "amd64" reloaded (by_arch_of ["amd64"; "arm64"]))) = [].
 Proof. exact own_objects_matter. Qed.
 
+(* "resolving a single architecture is unaffected", through the wiring: one
+   requested architecture (however often it is listed) starts from the empty
+   set and its resolution IS the plain one *)
+Theorem c14_single_arch_wiring : forall archs order repos a,
+  Permutation order (contexts archs) -> In a archs -> (forall b, In b archs -> b = a) ->
+  NoDup (List.map ni_id (repos a)) ->
+  wired_dq repos (by_arch_of order) a (repos a) = [] /\
+  forall world, snd (resolve_world [] repos (by_arch_of order) a (repos a) world) = resolve (arch_universe repos a) world [].
+Proof. exact single_arch_wiring. Qed.
+Print Assumptions c14_single_arch_wiring.
+
 (* (b) every member of a successful per-architecture resolution that is not an
    install_if package is available, at that version, on EVERY requested
    architecture *)
